@@ -28,6 +28,8 @@ func runExtra(cmd string, args []string) error {
 		return cmdVolReplay(args)
 	case "osinfo":
 		return cmdOsInfo()
+	case "lexreplay":
+		return cmdLexReplay(args)
 	}
 
 	return fmt.Errorf("unknown command %q", cmd)
@@ -274,6 +276,35 @@ func cmdOsInfo() error {
 	}
 
 	b, _ := json.Marshal(out)
+	fmt.Println(string(b))
+
+	return nil
+}
+
+func cmdLexReplay(args []string) error {
+	fl := flag.NewFlagSet("lexreplay", flag.ExitOnError)
+	edges := fl.String("edges", "", "tables emitted by LexSpec")
+	out := fl.String("out", "", "disagreements")
+	_ = fl.Parse(args)
+
+	in, err := os.Open(*edges)
+	if err != nil {
+		return err
+	}
+	defer in.Close()
+
+	of, err := os.Create(*out)
+	if err != nil {
+		return err
+	}
+	defer of.Close()
+
+	n, ev, err := drv.LexReplay(in, of)
+	if err != nil {
+		return err
+	}
+
+	b, _ := json.Marshal(map[string]any{"lines": n, "evaluations": ev})
 	fmt.Println(string(b))
 
 	return nil
